@@ -112,17 +112,34 @@ pub mod num_cpus {
     ::std::thread_local! {
         static OVERRIDE: Cell<Option<usize>> = const { Cell::new(None) };
         static CALLS: Cell<u64> = const { Cell::new(0) };
+        static FLIP: Cell<Option<(usize, usize, u64)>> = const { Cell::new(None) };
     }
 
     /// Install (Some) or remove (None) the simulated CPU count for this OS thread.
     pub fn set_override( n: Option<usize> ) {
         OVERRIDE.with(|o| o.set( n ));
+        FLIP.with(|f| f.set( None ));
+    }
+
+    /// Fault injection: the CPU count is `a` on the 1st, 3rd, ... consultation after this call and `b`
+    /// on the 2nd, 4th, ... (an affinity that changes while the program runs).
+    pub fn set_override_alternating( a: usize, b: usize ) {
+        OVERRIDE.with(|o| o.set( Some( a ) ));
+        FLIP.with(|f| f.set( Some( ( a, b, 0 ) ) ));
+    }
+
+    fn current() -> Option<usize> {
+        if let Some( ( a, b, q ) ) = FLIP.with(|f| f.get()) {
+            FLIP.with(|f| f.set( Some( ( a, b, q + 1 ) ) ));
+            return Some( if q % 2 == 0 { a } else { b } );
+        }
+        OVERRIDE.with(|o| o.get())
     }
 
     /// The installed override, counting the consultation.
     pub fn overridden() -> Option<usize> {
         CALLS.with(|c| c.set( c.get() + 1 ));
-        OVERRIDE.with(|o| o.get())
+        current()
     }
 
     /// Number of times `get`/`get_physical` was consulted on this OS thread.
@@ -132,7 +149,7 @@ pub mod num_cpus {
 
     pub fn get() -> usize {
         CALLS.with(|c| c.set( c.get() + 1 ));
-        match OVERRIDE.with(|o| o.get()) {
+        match current() {
             Some( n ) => n,
             None => ::num_cpus::get(),
         }
@@ -140,7 +157,7 @@ pub mod num_cpus {
 
     pub fn get_physical() -> usize {
         CALLS.with(|c| c.set( c.get() + 1 ));
-        match OVERRIDE.with(|o| o.get()) {
+        match current() {
             Some( n ) => n,
             None => ::num_cpus::get_physical(),
         }
